@@ -166,7 +166,9 @@ func init() {
 		return OkV(B(buf.Bytes()))
 	})
 	regOp("sxg_read", func(a []Sx) Sx {
-		e, err := sxg.ReadExchange(bytes.NewReader(a[0].B))
+		src, spoil := ownedSrc(a[0].B)
+		e, err := sxg.ReadExchange(src)
+		spoil()
 		if err != nil {
 			return ErrV()
 		}
@@ -222,7 +224,9 @@ func init() {
 		return L(Sym("written"), v1, verdictSx(p2, ok2))
 	})
 	regOp("sxg_read_verify", func(a []Sx) Sx {
-		e, err := sxg.ReadExchange(bytes.NewReader(a[0].B))
+		src, spoil := ownedSrc(a[0].B)
+		e, err := sxg.ReadExchange(src)
+		spoil()
 		if err != nil {
 			return L(Sym("invalid"))
 		}
